@@ -178,6 +178,28 @@ function namesOfModule(SPC, mod) {
 // fresh context, produce a synthetic discriminated-union variant definition with the SAME name
 // (it is derived from the 32-bit structural hash, which ignores alias boundaries) but DIFFERENT
 // bodies (one spells a member inline, the other goes through a named type).
+// The finding is about ALIAS BOUNDARIES only: the two bodies must say the same once every $ref to a named
+// definition is replaced by the definition it points at. Two same-named variant definitions that differ in any
+// other way (a title, a keyword, a member) are not this finding (seeded change c16o-2 was attributed to it by the
+// looser rule "different bodies").
+function withRefsInlined(x, defs, cfg, open) {
+  if (Array.isArray(x)) return x.map((y) => withRefsInlined(y, defs, cfg, open));
+  if (!x || typeof x !== "object") return x;
+  if (typeof x.$ref === "string") {
+    for (const k of Object.keys(defs)) {
+      if (cfg.refPathTemplate.replace("{name}", () => k) !== x.$ref) continue;
+      if (open.has(k)) return { $recursive: open.size - [...open].indexOf(k) };
+      open.add(k);
+      const { $ref, ...rest } = x;
+      const r = { ...withRefsInlined(defs[k], defs, cfg, open), ...withRefsInlined(rest, defs, cfg, open) };
+      open.delete(k);
+      return r;
+    }
+  }
+  const o = {};
+  for (const [k, v] of Object.entries(x)) o[k] = withRefsInlined(v, defs, cfg, open);
+  return o;
+}
 function syntheticNameCollision(SPC, mod, cfg) {
   const seen = new Map();
   for (const n of mod.names) {
@@ -186,8 +208,23 @@ function syntheticNameCollision(SPC, mod, cfg) {
     for (const [k, body] of Object.entries(f.defs)) {
       if (!k.startsWith("Discriminated")) continue;
       const c = canon(body);
-      if (seen.has(k) && seen.get(k) !== c) return k;
-      seen.set(k, c);
+      if (seen.has(k) && seen.get(k).c !== c) {
+        let flat;
+        try {
+          flat = canon(withRefsInlined(body, f.defs, cfg, new Set([k])));
+        } catch {
+          flat = null;
+        }
+        if (flat !== null && seen.get(k).flat === flat) return k;
+        continue;
+      }
+      if (!seen.has(k)) {
+        let flat = null;
+        try {
+          flat = canon(withRefsInlined(body, f.defs, cfg, new Set([k])));
+        } catch {}
+        seen.set(k, { c, flat });
+      }
     }
   }
   return null;
